@@ -397,7 +397,13 @@ def pair(ctx, rep, cls, w, r):
     wt = writer_table(ctx, w)
     dparam = r.params[1] if len(r.params) > 1 else None
     if not wt or dparam is None:
-        raise AnalysisError(f'{cls.qualname}: writer table or dict parameter not found')
+        returns_value = any(isinstance(x, ast.Return) and x.value is not None for x in walk_no_nested(w.node))
+        if not returns_value:
+            rep.bad('D1.keys', w, w.node.name, f'{cls.name}.to_dict returns no parameter dict: nothing can be restored from it', construct=f'{cls.name}: writer table')
+        else:
+            rep.undecided('D1.keys', w, w.node.name, f'{cls.name}: the keys written by to_dict (or the dict parameter of from_dict) are not derived',
+                          construct=f'{cls.name}: writer table')
+        return
     reads = reader_keys(ctx, r, dparam)
     rkeys = {}
     for rd in reads:
